@@ -26,6 +26,7 @@ type FuncContract struct {
 	Key      string // "Raft.RequestVote", "Log.GetEntry", "time.Now", "numeric.Min"
 	Kind     string // func | iface | extern
 	Params   []string
+	PTypes   []string
 	Results  []string
 	Clauses  []*Clause
 	Flags    map[string]bool
@@ -68,8 +69,8 @@ type ContractDB struct {
 	NLines      int
 }
 
-var topKeywords = map[string]bool{"ghost": true, "spec": true, "inv": true, "guar": true, "threadlocal": true, "func": true, "iface": true, "extern": true}
-var clauseKeywords = map[string]bool{"requires": true, "ensures": true, "assume": true, "release": true, "at": true, "loop": true, "let": true, "modifies": true, "flags": true}
+var topKeywords = map[string]bool{"ghost": true, "spec": true, "inv": true, "guar": true, "threadlocal": true, "func": true, "iface": true, "extern": true, "lemma": true}
+var clauseKeywords = map[string]bool{"requires": true, "ensures": true, "assume": true, "release": true, "at": true, "loop": true, "let": true, "val": true, "modifies": true, "flags": true}
 
 var labelRe = regexp.MustCompile(`^\[([^\]]+)\]\s*`)
 
@@ -180,7 +181,7 @@ func ParseContractFile(path string) (*ContractDB, error) {
 				} else {
 					db.Guar = append(db.Guar, c)
 				}
-			case "func", "iface", "extern":
+			case "func", "iface", "extern", "lemma":
 				fc := &FuncContract{Kind: w, Flags: map[string]bool{}, Line: it.line}
 				key := rest
 				if p := strings.Index(rest, "("); p >= 0 {
@@ -199,7 +200,15 @@ func ParseContractFile(path string) (*ContractDB, error) {
 						return out
 					}
 					if len(groups) > 0 {
-						fc.Params = split(groups[0][1])
+						for _, p := range split(groups[0][1]) {
+							f := strings.Fields(p)
+							fc.Params = append(fc.Params, f[0])
+							if len(f) > 1 {
+								fc.PTypes = append(fc.PTypes, f[1])
+							} else {
+								fc.PTypes = append(fc.PTypes, "")
+							}
+						}
 					}
 					if len(groups) > 1 {
 						fc.Results = split(groups[1][1])
@@ -246,9 +255,9 @@ func ParseContractFile(path string) (*ContractDB, error) {
 			c.Kind = "invariant"
 			c.LoopKey = strings.TrimSpace(rest[:idx])
 			c.Label, c.Src = takeLabel(rest[idx+len(" invariant "):])
-		case "let":
+		case "let", "val":
 			eq := strings.Index(rest, "=")
-			c.Kind = "let"
+			c.Kind = w
 			c.Name = strings.TrimSpace(rest[:eq])
 			c.Src = rest[eq+1:]
 		case "modifies":
